@@ -240,7 +240,9 @@ func c04Programs(r *Rng, n int) []string {
 		"[recurse(if type == \"number\" and . < 3 then .+1 else empty end)]",
 		"last(range(5))", "[limit(3; recurse(.[]?))]", "until(type != \"number\" or . > 3; . + 1)", "[.[]?] | reduce .[] as $x (0; . + ($x|numbers))",
 	}
-	paths := []string{".a.b = 1", ".a[0] |= 2", ".[\"a\"].b += 1", ".[0] = 1", ".a = (1,2)", ".a.b |= empty", ".a //= 3", ".[1:] = [9]", ".a.b.c = .a", "(.a,.b) = 1", ".a[1:2] = [7]", ".a |= . + 1", ".. |= .", ".[-1] = 0", ".a.b -= 1", "del(.a.b)", "del(.[0])", "to_entries", "with_entries(.value |= .)", "[paths]", "[leaf_paths]", "pick(.a)", ".[\"a\"] = 1", ".a[\"b\"] = 1"}
+	paths := []string{".a.b = 1", ".a[0] |= 2", ".[\"a\"].b += 1", ".[0] = 1", ".a = (1,2)", ".a.b |= empty", ".a //= 3", ".[1:] = [9]", ".a.b.c = .a", "(.a,.b) = 1", ".a[1:2] = [7]", ".a |= . + 1", ".. |= .", ".[-1] = 0", ".a.b -= 1", "del(.a.b)", "del(.[0])", "to_entries", "with_entries(.value |= .)", "[paths]", "[leaf_paths]", "pick(.a)", ".[\"a\"] = 1", ".a[\"b\"] = 1",
+		// regression corpus of finding F3: the message of the failing constant-path `=` reaches the output / a re-raised error
+		"try (.[0] = 1) catch (if error then 1 else 2 end)", "try (.a = 1) catch error", "try (.a.b = 1) catch (length + 1)", "[.[]? | try (.a = 1) catch .]", "(.a = 1)? // \"none\""}
 	ifs := []string{"if true then 1 else 2 end", "if . then \"a\" else \"b\" end", "if .a then 1 else 0 end", "if . == null then [] else {} end", "if .[]? then 1 else 2 end", "if . then 1 elif .a? then 2 else 3 end", "if (true,false) then 1 else 2 end", "if . then 1 end", "if empty then 1 else 2 end", "if error then 1 else 2 end", "[.[]? | if . then 1 else 0 end]", "-1", "-(1)", "-.", "-(.a)", "- 1.5", "-(1,2)", "[-1,-2]", "{a:-1}", ".[-1]", ".[-1:]", "-1 + 1", "1 - -1"}
 	pools := [][]string{lits, args, recs, paths, ifs}
 	var out []string
